@@ -43,7 +43,7 @@ def rand_entry(rng):
         body_ = up + (b"-" + rv if rv else b"")
         vtext = body_ if e == 0 and rng.random() < 0.7 else str(e).encode() + b":" + body_
     args = {}
-    for _ in range(rng.randrange(1, 4)):
+    for _ in range(rng.randrange(0, 4)):          # "zero or more keyword=value items"
         args[rng.choice([b"urgency", b"binary-only", b"x-opt", b"a", b"Urgency", b"X-Opt"])] = rng.choice([b"low", b"medium", b"yes", b"high (security)", b"1", b"HIGH", b"Medium", b"YES", b"Mixed-Case_9"])
     body = []
     for _ in range(rng.randrange(0, 6)):
@@ -63,6 +63,8 @@ def render(es, rng, final_newline=True, trailing_blanks=0):
         lines += [rng.choice([b"", b"", b" ", b"\t", b"  "]) for _ in range(e["blanks"])]
         items = list(e["args"].items())
         opts = b",".join(b" " + k + b"=" + v for k, v in items)
+        if rng.random() < 0.15:
+            opts += rng.choice([b",", b", ", b" "])      # a comma (or a blank) behind the last item is not an item
         lines.append(e["source"] + b" (" + e["vtext"] + b") " + e["dists"] + b";" + opts)
         lines += e["body"]
         lines.append(b" -- " + e["who"] + b"  " + e["date"])
